@@ -415,6 +415,7 @@ example : SchedFinal.TokFit (RestartTerm.resubmitted fl0 orphanW [⟨5, [], 0⟩
     rw [hb] at hi; exact absurd hi (Nat.not_lt_zero _)
 
 /-- obligation on the current source: the three scheduler repairs are present (the driver runs the model with these flags) -/
-theorem scheduler_flags : Gen.schedFlags.readyGuarded = true ∧ Gen.schedFlags.resubmitRegisters = true ∧ Gen.schedFlags.abortRechecks = true := by decide
+theorem scheduler_flags : Gen.schedFlags.readyGuarded = true ∧ Gen.schedFlags.resubmitRegisters = true ∧ Gen.schedFlags.abortRechecks = true ∧
+    Gen.schedFlags.abortReleases = true := by decide
 
 end XpmVerif.C11
